@@ -6,12 +6,21 @@ DEDUCTIVE = [
     ("evaluation", "kneeliverse.evaluation.accuracy"),
     ("evaluation", "kneeliverse.evaluation.f1score"),
     ("evaluation", "kneeliverse.evaluation.mcc"),
+    ("evaluation", "kneeliverse.evaluation.mae"), ("evaluation", "kneeliverse.evaluation.mae#knees"),
+    ("evaluation", "kneeliverse.evaluation.mae#expected"), ("evaluation", "kneeliverse.evaluation.mae#perfect"),
+    ("evaluation", "kneeliverse.evaluation.mse"), ("evaluation", "kneeliverse.evaluation.mse#knees"),
+    ("evaluation", "kneeliverse.evaluation.mse#expected"), ("evaluation", "kneeliverse.evaluation.mse#perfect"),
+    ("evaluation", "kneeliverse.evaluation.rmse"),
+    ("evaluation", "kneeliverse.evaluation.rmspe"), ("evaluation", "kneeliverse.evaluation.rmspe#perfect"),
 ]
 EXPLANATION = ("cm: TP+FN=|E|, TP+FP=|K|, entries non-negative and summing to n are postconditions proved with the loop invariant "
                "'claimed knees are pairwise distinct indices' (+ assumed pigeonhole lemma for TP<=|K|). accuracy and F1 in [0,1], MCC in [-1,1] "
-               "where its denominator is non-zero, all three equal 1 on perfect detection: proved (nonlinear real arithmetic, hints). The greedy "
-               "characterisation of TP, MAE/MSE/RMSE/RMSPE values and strategy side selection are covered by the bounded layer (exact rationals).")
+               "where its denominator is non-zero, all three equal 1 on perfect detection: proved (nonlinear real arithmetic, hints). MAE and MSE: "
+               "non-negative for every strategy; for the knees and expected strategies equal to the mean per-coordinate (absolute / squared) error of "
+               "nearest-neighbour matching from the selected side (ghost map M[j] = a nearest row, nearest in Euclidean distance); 0 when E is exactly "
+               "the knee points. RMSE = sqrt(MSE) >= 0. RMSPE defined and >= 0 on curves with non-negative coordinates, 0 on perfect detection. The "
+               "greedy characterisation of TP, the best/worst side selection and the RMSPE value are covered by the bounded layer (exact rationals).")
 LEVEL_TEXT = ("Proof of the accounting identities of the confusion matrix and of the ranges / perfect-detection values of accuracy, F1 and MCC "
-              "for all inputs; bounded exact-rational layer for the greedy matching and the error metrics.")
-LEVEL_NOTE = "pigeonhole lemma assumed (standard; Mathlib name recorded); np.argmin/np.fabs/ndarray.max/min contracts assumed; mae/mse/rmse/rmspe bounded only."
+              "for all inputs, of MAE/MSE as nearest-neighbour matching means (knees / expected strategies), RMSE = sqrt(MSE), non-negativity and perfect-detection zeros; bounded exact-rational layer for the greedy matching, best/worst strategies and RMSPE's value.")
+LEVEL_NOTE = "pigeonhole lemma assumed (standard; Mathlib name recorded); np.argmin/np.fabs/ndarray.max/min contracts assumed; np.linalg.norm(axis=1) and broadcasting modelled elementwise; mse's value is named by an uninterpreted term in rmse's contract (determinism of mse assumed there)."
 TECHNIQUE = "contract-based deductive verification (AST->VC, z3); bounded exact-rational run-time layer as labelled stand-in"
